@@ -18,6 +18,17 @@ def partialSizeSpec (t : Torrent) (p : List String) : Except Err Nat :=
     let below := files.filter fun f => startsWith (t.name :: f.path) p
     if below.isEmpty then .error .path else .ok (below.map (·.size)).sum
 
+/-- `p` is a path of the torrent: its name (single-file), or a prefix of the path of some entry
+    (multi-file; name first) — a listed file, a directory above one, the name, the empty path
+    when at least one entry is listed -/
+def Known (t : Torrent) (p : List String) : Prop :=
+  match t.mode with
+  | .single _ => p = [t.name]
+  | .multi files => ∃ f ∈ files, startsWith (t.name :: f.path) p = true
+
+instance (t : Torrent) (p : List String) : Decidable (Known t p) := by
+  unfold Known; split <;> exact inferInstance
+
 /-- no listed path is a directory prefix of another listed path (a name cannot be a file and a
     directory at once) -/
 def PrefixFree (t : Torrent) : Prop :=
